@@ -44,7 +44,9 @@ fn apply(l: &mut JobList, op: &Op, serial: &mut u32) -> Option<String> {
                 j.state = st(1);
             }
             *serial += 1;
-            j.name = format!("#{serial}");
+            // names share prefixes/substrings so that %name and %?name can be unique, ambiguous or absent
+            let base = ["sleep 1", "sleep 2", "cat", "sl"][(*pid as usize) % 4];
+            j.name = format!("{base} #{serial}");
             let name = j.name.clone();
             let i = l.insert(j);
             if l.get(i).map(|j| j.name.clone()) != Some(name) {
@@ -176,6 +178,49 @@ fn invariants(l: &JobList) -> Option<String> {
             if l.get(i).map(|j| j.pid) != Some(Pid(pid)) {
                 return Some("find_by_pid returns an index of another job".into());
             }
+        }
+    }
+    job_ids(l)
+}
+
+/// Job-ID resolution (`yash_env::job::id`) against the documented meaning, in this state.
+fn job_ids(l: &JobList) -> Option<String> {
+    use yash_env::job::id::{parse, FindError};
+    let res = |s: &str| parse(s).map(|id| id.find(l));
+    let want_opt = |o: Option<usize>| Ok(o.ok_or(FindError::NotFound));
+    for s in ["%", "%%", "%+"] {
+        if res(s) != want_opt(l.current_job()) {
+            return Some(format!("{s} does not designate the current job"));
+        }
+    }
+    if res("%-") != want_opt(l.previous_job()) {
+        return Some("%- does not designate the previous job".into());
+    }
+    for n in 1..=MAXJOBS + 2 {
+        let want = want_opt(l.get(n - 1).map(|_| n - 1));
+        if res(&format!("%{n}")) != want {
+            return Some(format!("%{n} does not designate the job with number {n}"));
+        }
+    }
+    if parse("1").is_ok() || parse("").is_ok() || parse("x%1").is_ok() {
+        return Some("a string without leading % parsed as a job ID".into());
+    }
+    let by = |f: &dyn Fn(&str) -> bool| {
+        let m: Vec<usize> = l.iter().filter(|(_, j)| f(&j.name)).map(|(i, _)| i).collect();
+        match m.len() {
+            0 => Err(FindError::NotFound),
+            1 => Ok(m[0]),
+            _ => Err(FindError::Ambiguous),
+        }
+    };
+    for q in ["s", "sl", "sleep", "sleep 1", "sleep 2 #", "c", "cat #", "x", "leep", "0", "#"] {
+        if res(&format!("%{q}")) != Ok(by(&|n| n.starts_with(q))) {
+            return Some(format!("%{q} resolved wrongly (name prefix)"));
+        }
+    }
+    for q in ["s", "leep", "p 1", "at", "l #", " #", "#1", "#2", "#3", "zz", "?"] {
+        if res(&format!("%?{q}")) != Ok(by(&|n| n.contains(q))) {
+            return Some(format!("%?{q} resolved wrongly (name substring)"));
         }
     }
     None
@@ -330,7 +375,7 @@ pub fn run(tier: Tier) -> i32 {
         "frontier_states_not_expanded": frontier_cut,
         "closure_reached": frontier_cut == 0,
         "exhaustive": true,
-        "explanation": "BFS over the real yash_env::job::JobList; every transition is executed on the real object (no separate model), invariants and op postconditions evaluated after every transition; states deduplicated by visible content + next free slab indices",
+        "explanation": "BFS over the real yash_env::job::JobList; every transition is executed on the real object (no separate model), invariants, op postconditions and job-ID resolution (%, %%, %+, %-, %n, %name, %?name via yash_env::job::id) evaluated after every transition; states deduplicated by visible content + next free slab indices",
     });
     ctx.finish(
         cov,
